@@ -1,7 +1,10 @@
 """C02 BFT heights are a deterministic function of the header chain.
 (B, main) seeded driver records calls on the real liskbft.Module with the projected store after each call;
 TLC validates the log against LiskBFT (every step deterministic => logged state must equal the spec state),
-checking RoundRobinFinal / HeightsSane / Monotone in every state.
+checking RoundRobinFinal / HeightsSane / Monotone in every state.  Every chain is also fed to a shadow node (other list
+order, never flushed) and every fourth one to a twin (all heights shifted by 2^16.. / 2^24.. / 2^31.., all weights multiplied by
+2^32-1 / 2^32 / 10^17) whose observations, mapped back, must be explained by the same model state ("Peer" lines).  One more
+trace is recorded in the world of a main-net round (103 identities, batch 103, window 309).
 (A) exhaustive single-chain enumeration by TLC (all generator / maxHeightGenerated choices, one parameter change)
 replayed through the real module."""
 import json, os, re
@@ -11,9 +14,12 @@ from props import c01
 
 LEVEL = "model_checking"
 
-def validate(ctx, binp, chains, seed, tag, cfg="LiskBFTTrace"):
+KINDS = {"MISMATCH": "state", "MISMATCH-ERR": "error", "MISMATCH-CONTRA": "contra", "MISMATCH-IMPLIES": "implies",
+         "MISMATCH-API": "api", "MISMATCH-HASH": "hash", "MISMATCH-GEN": "generators", "MISMATCH-PEER": "peer"}
+
+def validate(ctx, binp, chains, seed, tag, cfg="LiskBFTTrace", mode="std"):
     tr = ctx.path("trace_%s.ndjson" % tag); meta = ctx.path("meta_%s.json" % tag)
-    p = ctx.run([binp, tr, meta, str(chains)], env={"VERIF_SEED": str(seed)}, timeout=1800)
+    p = ctx.run([binp, tr, meta, str(chains), mode], env={"VERIF_SEED": str(seed)}, timeout=1800)
     if p.returncode != 0:
         raise Inconclusive("recorder failed: %s %s" % (p.stderr[-1500:], open(meta).read() if os.path.exists(meta) else ""))
     m = json.load(open(meta))
@@ -21,7 +27,7 @@ def validate(ctx, binp, chains, seed, tag, cfg="LiskBFTTrace"):
     r = ctx.tlc("LiskBFTTrace", cfg, workers=1, timeout=3000, files={"trace.ndjson": tr})
     accepted = r["distinct"] - 1
     res = dict(meta=m, events=len(lines), accepted=accepted, mismatch=None)
-    if cfg != "LiskBFTTrace":
+    if cfg not in ("LiskBFTTrace", "LiskBFTTrace_big"):
         # non-blocking mode (C07): only the contradiction probes are judged; the first one that differs is reported
         cm = re.findall(r'<<"MISMATCH-CONTRA", (\d+), (TRUE|FALSE)>>', r["out"])
         if cm:
@@ -29,6 +35,11 @@ def validate(ctx, binp, chains, seed, tag, cfg="LiskBFTTrace"):
             start = max(i for i in range(min(ln, len(lines))) if '"ev":"Init"' in lines[i])
             res["mismatch"] = dict(kind="contra", line=ln, detail="ContraChain = %s" % cm[0][1], chain_prefix=[json.loads(x) for x in lines[start:ln]][-14:],
                                    observed=json.loads(lines[ln - 1]))
+        # (C07, G3) the monitor stops at a line only one side accepts (MISMATCH-ERR / MISMATCH-IMPLIES) or when TLC itself
+        # gives up: the probes behind that line are unjudged - the caller must not count them as validated
+        if accepted < len(lines):
+            stop = [l for l in r["out"].splitlines() if l.startswith(('<<"MISMATCH-ERR', '<<"MISMATCH-IMPLIES'))]
+            res["ended_early"] = (stop[-1][:200] if stop else (r.get("error") or "TLC stopped without a MISMATCH line"))
         res["sample"] = [json.loads(x) for x in lines[:4]]
         return res
     if r["violation"]:
@@ -39,11 +50,13 @@ def validate(ctx, binp, chains, seed, tag, cfg="LiskBFTTrace"):
         mm = [l for l in r["out"].splitlines() if l.startswith('<<"MISMATCH')]
         kind = "state"
         if mm:
-            k = mm[-1].split('"')[1]
-            kind = {"MISMATCH": "state", "MISMATCH-ERR": "error", "MISMATCH-CONTRA": "contra", "MISMATCH-IMPLIES": "implies"}.get(k, "state")
+            parts = mm[-1].split('"')
+            kind = KINDS.get(parts[1], "state")
+            if kind == "peer":
+                # the observation of another real node fed the same chain: the twin lives at shifted heights with scaled weights
+                # (integer domain), the shadow differs in list order and flushing only (determinism)
+                kind = "scaled" if len(parts) > 3 and parts[3] == "twin" else "shadow"
         res["mismatch"] = dict(kind=kind, line=accepted + 1, detail=mm[-1:][0][:1500] if mm else "")
-    if any(json.loads(l).get("ev") == "Nondeterministic" for l in lines if '"Nondeterministic"' in l):
-        res["nondet"] = True
     if res["mismatch"]:
         ln = res["mismatch"]["line"]
         start = max(i for i in range(min(ln, len(lines))) if '"ev":"Init"' in lines[i])
@@ -52,27 +65,40 @@ def validate(ctx, binp, chains, seed, tag, cfg="LiskBFTTrace"):
     res["sample"] = [json.loads(x) for x in lines[:4]]
     return res
 
-def report(ctx, res, seed, chains, pid_kinds=("state", "error", "implies", "invariant", "contra")):
+ALL_KINDS = ("state", "error", "implies", "invariant", "contra", "api", "hash", "generators", "scaled", "shadow")
+
+def report(ctx, res, seed, chains, pid_kinds=ALL_KINDS, mode="std"):
     mm = res["mismatch"]
     if mm and mm["kind"] in pid_kinds:
-        ctx.violation("bft-mismatch:" + mm["kind"],
-                      "real liskbft state after a call differs from LiskBFT spec at trace line %d: spec says %s ; observed %s" % (
-                          mm["line"], mm["detail"], json.dumps(mm["observed"])[:1200]),
-                      dict(seed=seed, chains=chains, line=mm["line"], chain_prefix=mm["chain_prefix"]))
-    if res.get("nondet"):
-        ctx.violation("bft-nondeterministic", "two real stores fed the same header chain ended with different database contents",
-                      dict(seed=seed, chains=chains))
+        rp = dict(seed=seed, chains=chains, mode=mode, line=mm["line"], chain_prefix=mm["chain_prefix"])
+        if mm["kind"] == "shadow":
+            ctx.violation("bft-nondeterministic",
+                          "a second real node fed the same header chain (validator lists in another order, flushed only at the end) "
+                          "reports other heights / weights / parameters at trace line %d: spec says %s ; observed %s" % (
+                              mm["line"], mm["detail"], json.dumps(mm["observed"])[:1200]), rp)
+        else:
+            ctx.violation("bft-mismatch:" + mm["kind"],
+                          "real liskbft state after a call differs from LiskBFT spec at trace line %d: spec says %s ; observed %s" % (
+                              mm["line"], mm["detail"], json.dumps(mm["observed"])[:1200]), rp)
 
 def run(ctx):
     binp = ctx.go_build("./cmd/c02")
     if ctx.replay:
         d = json.load(open(ctx.replay))["replay"]
-        res = validate(ctx, binp, d["chains"], d["seed"], "replay")
-        report(ctx, res, d["seed"], d["chains"])
+        mode = d.get("mode", "std")
+        res = validate(ctx, binp, d["chains"], d["seed"], "replay", cfg="LiskBFTTrace_big" if mode == "big" else "LiskBFTTrace", mode=mode)
+        report(ctx, res, d["seed"], d["chains"], mode=mode)
         finish(ctx, LEVEL, dict(traces_validated_against_impl=res["meta"].get("chains", 0), samples=res["sample"][:1]))
     chains = 1000 if ctx.tier == "quick" else 2500
     rounds = 1 if ctx.tier == "quick" else 8
     tot = dict(chains=0, events=0, headers=0, headers_with_finality=0, rr_chains=0, setparams_ok=0, setparams_rejected=0, contra_true=0)
+    # scenarios added for the audit gaps G2-G8: a run in which one of them never happened proves nothing about it
+    NEED = ("ac_full", "ac_bits_only", "ac_sig_only", "ac_empty_other_height", "ac_nil", "double_set", "no_param_headers",
+            "shuffled_sets", "standby_entries", "twin_chains", "twin_chains_scaled", "twin_steps_with_finality", "peer_steps_shadow",
+            "peer_events_shadow", "peer_events_twin", "probes_weights_and_hash", "probes_generator_keys", "probes_labi_validators",
+            "probes_labi_with_standby")
+    for k in NEED:
+        tot[k] = 0
     samples = []
     for i in range(rounds):
         seed = ctx.seed * 1000 + i
@@ -85,6 +111,20 @@ def run(ctx):
         log("[c02] round %d: %d events accepted=%d mismatch=%s" % (i, res["events"], res["accepted"], bool(res["mismatch"])))
         if ctx.violations:
             break
+    # the world of a main-net round: 103 identities, batch 103 (window 309), 101 active validators + standby generators; the window
+    # fills and slides (quick: 1.25 windows, thorough: 2.5), sets are offered in shuffled order, the twin scales by 2^32
+    bigm = {}
+    if not ctx.violations:
+        for i in range(1 if ctx.tier == "quick" else 3):
+            seed = ctx.seed * 1000 + 500 + i
+            res = validate(ctx, binp, 1, seed, "big%d" % i, cfg="LiskBFTTrace_big", mode="big")
+            report(ctx, res, seed, 1, mode="big")
+            for k, v in res["meta"].items():
+                if isinstance(v, int):
+                    bigm[k] = bigm.get(k, 0) + v
+            log("[c02] 103-validator chain %d: %d events accepted=%d mismatch=%s" % (i, res["events"], res["accepted"], bool(res["mismatch"])))
+            if ctx.violations:
+                break
     # binding A: exhaustive single-chain enumeration replayed through the real module
     a = None
     if not ctx.violations:
@@ -98,11 +138,27 @@ def run(ctx):
         log("[c02] chain enumeration: %d chains replayed, %d with finality" % (a["distinct_paths"], a["paths_with_finality"]))
     if not ctx.violations and (tot["headers_with_finality"] == 0 or tot["setparams_ok"] < 2):
         raise Inconclusive("driver never reached finality / parameter changes: vacuous")
+    if not ctx.violations:
+        missing = [k for k in NEED if tot[k] == 0]
+        missing += ["big:" + k for k in ("big_full_window_headers", "headers_with_finality", "peer_events_twin", "peer_events_shadow", "shuffled_sets")
+                    if bigm.get(k, 0) == 0]
+        if bigm.get("setparams_ok", 0) < 2:
+            missing.append("big:setparams_ok")
+        if missing:
+            raise Inconclusive("scenarios that never happened in this run: %s: vacuous" % ", ".join(missing))
     cov = dict(traces_validated_against_impl=tot["chains"] + (a["distinct_paths"] if a else 0), samples=samples[:3],
                recorded_events=tot["events"], headers=tot["headers"], headers_with_finality=tot["headers_with_finality"],
                round_robin_chains=tot["rr_chains"], parameter_changes=tot["setparams_ok"], rejected_parameter_sets=tot["setparams_rejected"],
                contradiction_probes_true=tot["contra_true"],
+               scenarios={k: tot[k] for k in NEED},
+               main_net_round_chain=dict(events=bigm.get("events", 0), headers=bigm.get("headers", 0),
+                                         headers_with_full_window=bigm.get("big_full_window_headers", 0),
+                                         headers_with_finality=bigm.get("headers_with_finality", 0),
+                                         parameter_changes=bigm.get("setparams_ok", 0), twin_steps=bigm.get("peer_steps_twin", 0)),
                exhaustive_chains_replayed=(a["distinct_paths"] if a else 0),
                rule="each recorded call is one TLC state; accepted iff the projected real store equals the spec state after the same call")
-    finish(ctx, LEVEL, cov, assumptions=["spec written from LIP-0056/0058, not from the Go code", "weights are small integers",
-                                         "5 validator identities, batch sizes 2..5"])
+    finish(ctx, LEVEL, cov, assumptions=["spec written from LIP-0056/0058, not from the Go code",
+                                         "the model counts with small integers; heights up to 2^31+10^3 and weights up to 3*10^17 reach the real code "
+                                         "through the twin node, whose observation is mapped back by x-S, w/K, ceil(T/K)",
+                                         "5 validator identities with batch sizes 2..5, and one chain with 103 identities / batch 103",
+                                         "parameter keys <= min(oldest window height, certified+1) and answers below that height are not compared"])
